@@ -94,24 +94,24 @@ type MWStep struct {
 }
 
 type MWCase struct {
-	EPN      int      `json:"epn"`
-	NWriters int      `json:"nwriters"`
-	NKeys    int      `json:"nkeys"`
-	Steps    []MWStep `json:"steps"`
-	Mode     string   `json:"mode,omitempty"` // "", "c09", "c10": which vacuum oracles are active
-	SmallVals bool    `json:"small_vals,omitempty"`
+	EPN       int      `json:"epn"`
+	NWriters  int      `json:"nwriters"`
+	NKeys     int      `json:"nkeys"`
+	Steps     []MWStep `json:"steps"`
+	Mode      string   `json:"mode,omitempty"` // "", "c09", "c10": which vacuum oracles are active
+	SmallVals bool     `json:"small_vals,omitempty"`
 }
 
 type mwGenCfg struct {
-	maxWriters   int
-	keyChoices   []int
-	maxSteps     int
+	maxWriters                                        int
+	keyChoices                                        []int
+	maxSteps                                          int
 	wStmt, wTxn, wRefresh, wRetry, wPartial, wObserve int
-	wIns, wUpd, wDel int
-	multiRow     bool
-	wVacuum      int
-	mode         string
-	smallVals    bool
+	wIns, wUpd, wDel                                  int
+	multiRow                                          bool
+	wVacuum                                           int
+	mode                                              string
+	smallVals                                         bool
 }
 
 func genPerm(t *rapid.T, label string) []int {
@@ -216,24 +216,24 @@ type mwWriter struct {
 }
 
 type mwRun struct {
-	c      MWCase
-	o      *Obs
-	bucket string
-	store  *fakes3.Store
-	prefix string
-	ws     []*mwWriter
-	pub    map[string]MSet // version name -> operations it contains
-	all    MSet            // union of everything committed
-	issued []Stmt
-	effective []bool // per issued statement: did it add an operation when first run
+	c            MWCase
+	o            *Obs
+	bucket       string
+	store        *fakes3.Store
+	prefix       string
+	ws           []*mwWriter
+	pub          map[string]MSet // version name -> operations it contains
+	all          MSet            // union of everything committed
+	issued       []Stmt
+	effective    []bool // per issued statement: did it add an operation when first run
 	writersOfKey map[string]map[int]bool
-	spec   TableSpec
-	snaps  []verSnap
-	snapAt map[string]int
-	farVacuumed bool
-	opsAdded int
-	ro       *roState
-	closers  []func()
+	spec         TableSpec
+	snaps        []verSnap
+	snapAt       map[string]int
+	farVacuumed  bool
+	opsAdded     int
+	ro           *roState
+	closers      []func()
 }
 
 const mwCols = "k primary key, a, b, c"
